@@ -114,10 +114,10 @@ S1_INPUTS = [{'b': {'x': 1}, 'cs': [{'y': 'q'}]}, {'b': {'x': -1}}, {'cs': [{'ba
 
 @ob('first-parse/forward-refs', marks=['preempted'], budget=(150, 900), per_path=(30, 60),
     bounds="two threads make the first parse of a class with two pending forward references (Optional['B'], List['C'], C referring "
-           'back to A), each on a solver-picked input from 5 (valid, invalid nested, deep, invalid scalar, empty); every schedule '
+           'back to A), each on a solver-picked input from 5 (valid, invalid nested, deep, invalid scalar, empty); every schedule (which thread starts is part of it) '
            'with at most 1 preemption (2 thorough) plus the free hand-over when a thread finishes at watched line boundaries', out='see ASSUMPTIONS')
 def first_parse(V):
-    i, j = V.pick('in0', list(range(len(S1_INPUTS))) if V.thorough else [0]), V.pick('in1', [0, 1, 2] if V.thorough else [0, 1])
+    i, j = V.pick('in0', list(range(len(S1_INPUTS))) if V.thorough else [0]), V.pick('in1', [0, 1, 2] if V.thorough else [1])
     race(V, build_s1, [lambda ns, d=S1_INPUTS[i]: dict(ns['A'](**d)), lambda ns, d=S1_INPUTS[j]: dict(ns['A'](**d))], 'first-parse')
 
 
@@ -160,7 +160,7 @@ def build_s3():
            'again after each resolution) on solver-picked inputs; same bounds')
 def local_class(V):
     ins = [{'v': 1, 'nxt': {'v': 2}}, {'nxt': {'v': -1}}, {'more': [{'v': '3'}, {'nxt': {'v': 4}}]}]
-    i, j = V.pick('in0', [0, 1, 2] if V.thorough else [0, 1]), V.pick('in1', [0, 1, 2] if V.thorough else [1, 2])
+    i, j = V.pick('in0', [0, 1, 2] if V.thorough else [0]), V.pick('in1', [0, 1, 2] if V.thorough else [1, 2])
     race(V, build_s3, [lambda ns, d=ins[i]: dict(ns['Local'](**d)), lambda ns, d=ins[j]: dict(ns['Local'](**d))], 'local-class')
 
 
@@ -169,7 +169,7 @@ def local_class(V):
            'references to a class defined later; solver-picked valid / invalid arguments; same bounds')
 def function(V):
     calls = [({'v': 1}, None), ({'v': 'x'}, None), ({'v': 2}, {'v': 3}), ({'v': 0}, {'v': -1})]
-    i, j = V.pick('c0', [0, 1, 2, 3] if V.thorough else [2]), V.pick('c1', [0, 1, 2] if V.thorough else [0, 1])
+    i, j = V.pick('c0', [0, 1, 2, 3] if V.thorough else [2]), V.pick('c1', [0, 1, 2] if V.thorough else [1])
     race(V, build_s3, [lambda ns, c=calls[i]: dict(ns['fn'](c[0], c[1])), lambda ns, c=calls[j]: dict(ns['fn'](c[0], c[1]))], 'function')
 
 
